@@ -473,3 +473,44 @@ Definition guard_fires (img : image) (g : rguard) : bool :=
 (* what the launched raft peer starts from *)
 Definition restart_image (img : image) : image :=
   if existsb (guard_fires img) replay_log_guards then image0 else img.
+
+(* ------------------------------------------------------------------ *)
+(* Tan's obsolete-file rule (internal/tan/index.go nodeIndex.fileInUse, GENERATED): a log file
+   may be deleted only if no replica of the db still needs it. What a replica needs: the file
+   with its latest snapshot record, the file with its latest STATE record (term, vote,
+   commit), the files with its entry records. *)
+Record node_files := mkNF { nf_snapshot : N; nf_state : N; nf_entries : list N }.
+Definition fuse_holds (nf : node_files) (fn : N) (f : fuse) : bool :=
+  match f with
+  | FuSnapshot => nf_snapshot nf =? fn
+  | FuState => nf_state nf =? fn
+  | FuEntries => existsb (N.eqb fn) (nf_entries nf)
+  end.
+Definition file_in_use (nf : node_files) (fn : N) : bool :=
+  existsb (fuse_holds nf fn) tan_file_in_use_fields.
+(* multiplexed log: the file is obsolete only if no replica uses it *)
+Definition file_obsolete (nodes : list node_files) (fn : N) : bool :=
+  negb (existsb (fun nf => file_in_use nf fn) nodes).
+
+(* ------------------------------------------------------------------ *)
+(* node.doSave (snapshot of the state machine), step order GENERATED ([do_save_steps]).
+   An exported snapshot goes to the user's directory and is NOT recorded in the replica's
+   LogReader / log store; log compaction may be scheduled only below a RECORDED snapshot. *)
+Inductive seffect := EfSaved | EfCommitted | EfRecorded | EfCompactionScheduled.
+Fixpoint do_save_run (exported : bool) (steps : list sstep) : list seffect :=
+  match steps with
+  | [] => []
+  | SsSave :: r => EfSaved :: do_save_run exported r
+  | SsCommit :: r => EfCommitted :: do_save_run exported r
+  | SsExportedReturn :: r => if exported then [] else do_save_run exported r
+  | SsRecord :: r => EfRecorded :: do_save_run exported r
+  | SsCompactLog :: r => EfCompactionScheduled :: do_save_run exported r
+  | SsSetIndex :: r => do_save_run exported r
+  end.
+Fixpoint compaction_after_record (recorded : bool) (effs : list seffect) : bool :=
+  match effs with
+  | [] => true
+  | EfRecorded :: r => compaction_after_record true r
+  | EfCompactionScheduled :: r => recorded && compaction_after_record recorded r
+  | _ :: r => compaction_after_record recorded r
+  end.
